@@ -167,6 +167,14 @@ class String(Parseable[bytes], metaclass=ABCMeta):
 
     __slots__: list[str] = []
 
+    @classmethod
+    def _check_too_big(cls, params: Params, length: int) -> bool:
+        if params.command_name == b'APPEND':
+            max_len = params.max_append_len
+        else:
+            max_len = cls._MAX_LEN
+        return max_len is not None and length > max_len
+
     @property
     @abstractmethod
     def binary(self) -> bool:
@@ -298,6 +306,9 @@ class QuotedString(String):
             else:
                 end = match.end(0)
                 quoted = buf[start:end]
+                if cls._check_too_big(params, len(unquoted)):
+                    # the limit of a literal, however the string is spelled
+                    raise NotParseable(buf, b'TOOBIG')
                 return cls(bytes(unquoted), bytes(quoted)), buf[end:]
         raise NotParseable(buf)
 
@@ -352,14 +363,6 @@ class LiteralString(String):
     def _prefix(self) -> bytes:
         binary_prefix = b'~' if self.binary else b''
         return b'%b{%d}\r\n' % (binary_prefix, self.length)
-
-    @classmethod
-    def _check_too_big(cls, params: Params, length: int) -> bool:
-        if params.command_name == b'APPEND':
-            max_len = params.max_append_len
-        else:
-            max_len = cls._MAX_LEN
-        return max_len is not None and length > max_len
 
     @classmethod
     def parse(cls, buf: memoryview, params: Params) \
